@@ -46,6 +46,7 @@ def check(rep, tier, replay=None):
     splines.check_s7(rep, idx)
     splines.check_s8(rep, idx)
     splines.check_s9(rep, idx)
+    splines.check_s10(rep, idx)
     # arclength sums integrate_absolute_polynomial over the segments (S8 decides the bounds and integrand; the helper itself is C20's rule I1)
     import c20
     c20.check_i1(rep)
